@@ -43,6 +43,7 @@ fn main() {
     let args = Args::parse(&argv[2..]);
     let code = match argv[1].as_str() {
         "seq" => seq::cmd_seq(&args),
+        "crash" => crash::cmd_crash(&args),
         "replay" => {
             let p = args.free.first().cloned().unwrap_or_default();
             seq::cmd_replay(Path::new(&p))
